@@ -155,6 +155,11 @@ func (t *Thread) call(fn *ssa.Function, args []Value, env []Value) Value {
 	if fn.Name() == "init" || strings.HasPrefix(fn.Name(), "init#") {
 		return nil // package initialisation is lazy (ensureInit); user init() functions are not run
 	}
+	if strings.HasPrefix(name, apiP) {
+		if k := strings.IndexByte(name, '['); k > 0 {
+			name = name[:k] // generic instantiation of a verifapi function
+		}
+	}
 	if h, ok := intrinsics[name]; ok {
 		return h(t, fn, args)
 	}
@@ -174,7 +179,8 @@ func (t *Thread) call(fn *ssa.Function, args []Value, env []Value) Value {
 	}
 	t.depth++
 	if t.depth > ex.H.Opt.MaxDepth {
-		ex.H.noteInconclusive("call depth bound exceeded at " + name)
+		ex.H.incObl()
+		ex.H.recordViolationPC(ex, "no-unbounded-recursion", fmt.Sprintf("call depth exceeds %d at %s", ex.H.Opt.MaxDepth, name))
 		ex.end("depth-bound")
 	}
 	defer func() { t.depth-- }()
